@@ -609,10 +609,10 @@ def install(E):
             return It(kind, inner=it, clo=argv[1])
         if kind in ('rev', 'copied', 'cloned', 'enumerate', 'by_ref'):
             return It(kind, inner=it)
-        if kind == 'chain':
-            return It('chain', inner=it, extra=argv[1])
+        if kind in ('chain', 'zip'):
+            return It(kind, inner=it, extra=argv[1])
         return NotImplemented
-    reg(r' as Iterator>::(filter|map|filter_map|rev|copied|cloned|chain|enumerate)(?:::<.*>)?$', h_adaptor)
+    reg(r' as Iterator>::(filter|map|filter_map|rev|copied|cloned|chain|enumerate|zip)(?:::<.*>)?$', h_adaptor)
 
     def items(E, it, guard, mem):
         """enumerate an iterator: list of (present_cond, value)"""
@@ -647,6 +647,14 @@ def install(E):
             return [(p, deref(E, v, mem, guard)) for p, v in inner]
         if it.kind == 'rev':
             return list(reversed(inner))
+        if it.kind == 'zip':
+            # pairs of prefix sequences: pair i exists iff both i-th elements exist
+            other = it.extra
+            if not isinstance(other, It):
+                r, s = seq_ref(E, other, mem, guard)
+                other = It('slice', inner=r, extra=0)
+            oth = items(E, other, guard, mem)
+            return [(simp(And(p, q)), Tup([v, w])) for (p, v), (q, w) in zip(inner, oth)]
         if it.kind == 'enumerate':
             # position depends on presence of previous elements only for filtered inners;
             # supported when all inner presence conditions are prefix-closed (slices)
@@ -874,7 +882,7 @@ def install(E):
             pres = simp(zint(hi) > lo) if not isinstance(hi, int) else lo < hi
             mem[r.cell] = E.write_path(mem[r.cell], r.path, It('range', extra=(lo + 1, hi, ty)), mem, guard, 'next')
             return mk_opt(E, pres, I(lo, ty))
-        if it.kind in ('copied', 'cloned', 'enumerate', 'rev', 'map', 'filter', 'filter_map', 'chain'):
+        if it.kind in ('copied', 'cloned', 'enumerate', 'rev', 'map', 'filter', 'filter_map', 'chain', 'zip'):
             # general adaptors: materialise the remaining items once, then step through them
             its = items(E, it, guard, mem)
             mem[r.cell] = E.write_path(mem[r.cell], r.path, It('list', extra=(its, 0)), mem, guard, 'next')
